@@ -26,7 +26,7 @@ stage = [
     frag(GP, 'flip_and_wait', r'inline void gp_singleton<RCUtag>::flip_and_wait\( Backoff& \w+ \)', body_only=True),
     frag('cds/urcu/details/gp_decl.h', 'global_control_word', r'uint32_t global_control_word\( atomics::memory_order \w+ \) const'),
     frag(GPB, 'clear_buffer', r'void clear_buffer\( uint64_t \w+ \)', rewrites=[
-        dict(lit='push_buffer( std::move(p));', to='push_buffer( p );', count=1, why='std::move / rvalue reference parameter: inside the callee a named T&& is an lvalue')]),
+        dict(lit='push_buffer( std::move(p));', to='push_buffer( p );', count='0+', why='std::move / rvalue reference parameter: inside the callee a named T&& is an lvalue')]),
     frag(GPB, 'push_buffer', r'bool push_buffer\( epoch_retired_ptr&& \w+ \)', rewrites=[
         dict(lit='bool push_buffer( epoch_retired_ptr&& ep )', to='bool push_buffer( epoch_retired_ptr& ep )', count=1, why='rvalue reference parameter'),
         dict(lit='synchronize();', to='vx_synchronize_contract();', count=1, why='callee replaced by its CONTRACT (the postcondition discharged in group synchronize): cuts the recursion clear_buffer -> push_buffer -> synchronize -> clear_buffer')]),
